@@ -7,7 +7,7 @@ use super::sendbody::{send_body_call, send_body_flow};
 use crate::engine::{guarded, pattern, Report, Tier, Violation};
 use crate::refmodel::chunked::decode_strict;
 
-pub const RULE: &str = "chunked: every output length b in 6..=11000 and +-12 around k*10248 (k<=3) x input lengths {1..=64 (thorough 1..=320), 100, 255..257, 1000, 4095..4097, 10239..10241, 20480, 20481, 30000} u {b-6..=b+2}, each pair one real write on a fresh writer (front ends: Flow of a POST, Call, Flow of a DELETE with send-body-despite-method); the same rows for b in 6..=64 u {100,1000,4103,10248,10253} from non-initial states: after an earlier write of {1,3} bytes into a buffer of 0..=12 bytes in the same state, and after two superfluous head writes (buffers {0,4,5,6,4096}) in the state before, and for an HTTP/1.0 GET converted with send-body-despite-method; sized: b,i in 1..=300 (a reduced buffer set also after a refused oversize direct-write report and after a refused oversize write), plus fixed-buffer loops with Content-Length around 2^32, 2^33, 2^40, u64::MAX; plus whole-body caller loops with a fixed buffer. distinct = distinct (mode, consumed==input, chunks emitted, hex digits) classes";
+pub const RULE: &str = "chunked: every output length b in 6..=11000 and +-12 around k*10248 (k<=3) x input lengths {1..=64 (thorough 1..=320), 100, 255..257, 1000, 4095..4097, 10239..10241, 20480, 20481, 30000} u {b-6..=b+2}, each pair one real write on a fresh writer (front ends: Flow of a POST, Call, Flow of a DELETE with send-body-despite-method); the same rows for b in 6..=64 u {100,1000,4103,10248,10253} from non-initial states: after an earlier write of {1,3} bytes into a buffer of 0..=12 bytes in the same state, and after two superfluous head writes (buffers {0,4,5,6,4096}) in the state before, for an HTTP/1.0 GET converted with send-body-despite-method, after an Expect handshake whose look returned an error, and for a request with two Transfer-Encoding lines next to a Content-Length; sized: b,i in 1..=300 (a reduced buffer set also after a refused oversize direct-write report and after a refused oversize write), plus fixed-buffer loops with Content-Length around 2^32, 2^33, 2^40, u64::MAX; plus whole-body caller loops with a fixed buffer. distinct = distinct (mode, consumed==input, chunks emitted, hex digits) classes";
 
 fn bs() -> Vec<usize> {
     let mut v: Vec<usize> = (6..=11000).collect();
@@ -53,6 +53,29 @@ fn write_once(i: usize, b: usize, front: &str, input: &[u8]) -> Result<(usize, S
         } else if let Some(h) = front.strip_prefix("flow+headwrites:") {
             // further SendRequest writes after the head was complete, before entering SendBody
             let mut f = super::sendbody::send_body_flow_extra_head_writes(h.parse::<usize>().unwrap_or(0));
+            f.write(&input[..i], &mut out)
+        } else if front == "flow-after-await100-error" {
+            // Expect handshake: the bytes that arrive while waiting are not HTTP at all (try_read_100 returns an
+            // error); the caller goes on and sends the body
+            let cfg = crate::driver::ReqCfg::new("POST", "1.1", "http://a.test/p").orig("expect", "100-continue");
+            let mut sr = cfg.build_prepare().expect("prepare").proceed();
+            crate::driver::write_whole_head(&mut sr).expect("head");
+            let mut f = match crate::driver::AnyFlow::SendRequest(sr).proceed() {
+                Ok(Some(crate::driver::AnyFlow::Await100(mut a))) => {
+                    let _ = a.try_read_100(b"\x16\x03\x01 not http at all\r\n\r\n");
+                    let _ = a.try_read_100(b"HTTP/1.1 099 Hold\r\n\r\n");
+                    match a.proceed() {
+                        Ok(ureq_proto::client::flow::Await100Result::SendBody(b)) => b,
+                        _ => panic!("harness: expected SendBody after a failed look"),
+                    }
+                }
+                _ => panic!("harness: expected Await100"),
+            };
+            f.write(&input[..i], &mut out)
+        } else if front == "flow-two-te-lines+cl" {
+            // Transfer-Encoding as two field lines (gzip, then chunked) next to a Content-Length: chunked wins
+            let cfg = crate::driver::ReqCfg::new("POST", "1.1", "http://a.test/p").orig("content-length", "2").orig("transfer-encoding", "gzip").orig("transfer-encoding", "chunked");
+            let mut f = super::sendbody::send_body_flow_cfg(&cfg);
             f.write(&input[..i], &mut out)
         } else if front == "flow-despite-http10" {
             // an HTTP/1.0 GET converted with send_body_despite_method(), no Content-Length: default framing
@@ -289,6 +312,8 @@ pub fn run(tier: Tier) -> Report {
     let hist_fronts: Vec<String> = [1usize, 3].iter().flat_map(|i0| (0..=12usize).map(move |b0| format!("flow+prior:{}:{}", i0, b0))).chain([0usize, 4, 5, 6, 4096].iter().map(|b| format!("flow+headwrites:{}", b))).collect();
     let mut hist_fronts: Vec<&'static str> = hist_fronts.into_iter().map(|s| &*Box::leak(s.into_boxed_str())).collect();
     hist_fronts.push("flow-despite-http10");
+    hist_fronts.push("flow-after-await100-error");
+    hist_fronts.push("flow-two-te-lines+cl");
     for f in &hist_fronts {
         for b in (6..=64usize).chain([100, 1000, 4103, 10248, 10253]) {
             jobs.push((b, f));
@@ -391,7 +416,7 @@ pub fn run(tier: Tier) -> Report {
     }
     rep.sample(json!({"loop": {"body_len": 25000, "buffer_len": 10253, "chunked": true}}));
     rep.guard("some write consumes only part of its input", false);
-    rep.guard("rows from non-initial states evaluated", hist_fronts.len() == 32);
+    rep.guard("rows from non-initial states evaluated", hist_fronts.len() == 34);
     rep.extra("buffer_lengths", json!(bs.len()));
     rep.extra("loops", json!(loops.len()));
     rep
